@@ -39,12 +39,12 @@ def run(ctx):
             ctx.guard("C02", "twins", lambda: features.twins(ctx, prog, scope='internals::compare::|position_array::', floor=8))
         ctx.guard("C02", "distance-exits", lambda: effbs.distance_exits(ctx, prog))
         ctx.guard("C02", "full-eq", lambda: eqord.full_eq(ctx, prog))
-        ctx.guard("C02", "summaries", lambda: summary.check(ctx, prog, 'internals::compare::|compare_easy::', floor=10))
-        ctx.guard("C02", "path summaries", lambda: summary.check_paths(ctx, prog, 'internals::compare::|compare_easy::', floor=25))
-        if c in ("dbg", "unsafe_dbg", "strict_dbg"):
-            ctx.guard("C02", "beliefs", lambda: beliefs.census(ctx, prog, beliefs.SCOPES["C02"][0], floor=beliefs.SCOPES["C02"][1]))
         ctx.guard("C02", "traits", lambda: vis.trait_census(ctx, prog, scope='position_array::|FuzzyHashCompareTarget'))
         ctx.guard("C02", "casts", lambda: casts.census(ctx, prog, scope='internals::compare::', floor=3))
         if c not in ("nodef",):
             ctx.guard("C02", "easy", lambda: effbs.string_front_end(ctx, prog))
+        ctx.guard("C02", "summaries", lambda: summary.check(ctx, prog, 'internals::compare::|compare_easy::', floor=10))
+        ctx.guard("C02", "path summaries", lambda: summary.check_paths(ctx, prog, 'internals::compare::|compare_easy::', floor=25))
+        if c in ("dbg", "unsafe_dbg", "strict_dbg"):
+            ctx.guard("C02", "beliefs", lambda: beliefs.census(ctx, prog, beliefs.SCOPES["C02"][0], floor=beliefs.SCOPES["C02"][1]))
     return ctx.finish(EXPL, ["relation beliefs are read from configurations with debug assertions on (they are pruned in release MIR)", "edit distance and common-substring kernels are exact (C08/C09, not decided here)"])
